@@ -161,6 +161,20 @@ func (engC11) Gen(r *Rng, s *Script, idx int, tier string) {
 			s.Steps = append(s.Steps, Step{Op: "attach"})
 		}
 	}
+	if r.Chance(1, 12) {
+		// the zero value of Row: a cell it refuses is misuse, and misuse is reported
+		s.Config["zero_value_row_scenario"] = 1
+		s.Steps = append(s.Steps, Step{Op: "newRow", A: 3})
+		for i := r.Range(1, 2); i > 0; i-- {
+			s.Steps = append(s.Steps, Step{Op: "rowAdd", A: 0, Items: genItems(r, 1, 0, &ctr)})
+		}
+		if r.Chance(1, 3) {
+			s.Steps = append(s.Steps, Step{Op: "rowError", A: 0})
+		}
+		if r.Chance(3, 4) {
+			s.Steps = append(s.Steps, Step{Op: "attach"})
+		}
+	}
 	if r.Chance(1, 6) {
 		// a row obtained from AppendNewRow reports through the table from the start
 		s.Config["append_new_row_scenario"] = 1
@@ -232,7 +246,8 @@ func (engC11) Gen(r *Rng, s *Script, idx int, tier string) {
 	}
 }
 
-func (engC11) Exec(s *Script, keepLog bool) *Result {
+func (engC11) Exec(s *Script, keepLog bool) (guarded *Result) {
+	defer guardExec("C11", &guarded)
 	w := NewWorld(s.Cfg("kind", 0), "utf8-light", nil, NewEventLog(keepLog))
 	res := &Result{}
 	runSteps(w, s.Steps, res, func(i int, st *Step) *Violation {
@@ -385,7 +400,8 @@ func (engC12) Gen(r *Rng, s *Script, idx int, tier string) {
 	}
 }
 
-func (engC12) Exec(s *Script, keepLog bool) *Result {
+func (engC12) Exec(s *Script, keepLog bool) (guarded *Result) {
+	defer guardExec("C12", &guarded)
 	w := NewWorld(s.Cfg("kind", 0), "utf8-light", nil, NewEventLog(keepLog))
 	res := &Result{}
 	runSteps(w, s.Steps, res, func(i int, st *Step) *Violation {
@@ -616,7 +632,8 @@ func (engC13) Gen(r *Rng, s *Script, idx int, tier string) {
 	}
 }
 
-func (engC13) Exec(s *Script, keepLog bool) *Result {
+func (engC13) Exec(s *Script, keepLog bool) (guarded *Result) {
+	defer guardExec("C13", &guarded)
 	w := NewWorld(s.Cfg("kind", 0), "utf8-light", nil, NewEventLog(keepLog))
 	res := &Result{}
 	passes := 0
